@@ -148,9 +148,7 @@ func ParseSelect(statement *sqlparser.Select) (logical.Node, *OutputOptions, err
 		var aggregateExprs []logical.Expression
 		var aggregateFieldNames []string
 		keyFieldNames := make([]string, len(key))
-		for i := range key {
-			keyFieldNames[i] = fmt.Sprintf("key_%d", i)
-		}
+		keyNamed := make([]bool, len(key))
 		nameCounter := map[string]int{}
 		getUniqueName := func(name string) string {
 			for {
@@ -188,7 +186,15 @@ func ParseSelect(statement *sqlparser.Select) (logical.Node, *OutputOptions, err
 					name = getUniqueName(fmt.Sprintf("key_%d", keyPart[i]))
 				}
 				keyFieldNames[keyPart[i]] = name
+				keyNamed[keyPart[i]] = true
 				outputExprs[i] = logical.NewVariable(name)
+			}
+		}
+		// Key parts that aren't selected get their default names last, through the same name counter:
+		// a selected column may itself be called key_<i> (e.g. a default-named column of a subquery).
+		for i := range key {
+			if !keyNamed[i] {
+				keyFieldNames[i] = getUniqueName(fmt.Sprintf("key_%d", i))
 			}
 		}
 
